@@ -379,6 +379,20 @@ def pair_pool():
         e(('store', None, (a, x, y)), a2),
         e(a, ('arrayval', B.INT, (B.Int(0),))),
         e(u, v), e(B.App('f', fI, (x,)), y),
+        # array sorts that are each other's transpose / component-wise
+        # variants (sorts are memoised per environment)
+        e(B.Sym('air', B.ARR(B.INT, B.REAL)),
+          B.Sym('air2', B.ARR(B.INT, B.REAL))),
+        e(B.Sym('ari', B.ARR(B.REAL, B.INT)),
+          B.Sym('ari2', B.ARR(B.REAL, B.INT))),
+        e(('select', None, (B.Sym('ari', B.ARR(B.REAL, B.INT)), r)), x),
+        e(('select', None, (B.Sym('air', B.ARR(B.INT, B.REAL)), x)), r),
+        e(('arrayval', B.REAL, (B.Int(0),)),
+          B.Sym('ari', B.ARR(B.REAL, B.INT))),
+        e(('arrayval', B.INT, (B.Real(0),)),
+          B.Sym('air', B.ARR(B.INT, B.REAL))),
+        e(B.Sym('abv', B.ARR(B.BV(4), B.BOOL)),
+          B.Sym('abv2', B.ARR(B.BV(4), B.BOOL))),
         e(B.App('f', fI, (B.App('f', fI, (x,)),)), x),
         ('forall', (('x', B.INT),), (('lt', None, (x, y)),)),
         ('exists', (('w', B.BV(4)),), (('bvult', None, (B.Sym('w', B.BV(4)),
